@@ -208,7 +208,9 @@ PROPS['C20'] = {
                    'WARequest.urlencode for str values equals the reference per-character encoding (loop invariant) followed by the three '
                    'extra escapes; WARequest.encryptParams produces exactly one fresh ephemeral key pair and the blob '
                    'b64(ephemeral_pub[1:] || AES-GCM(agreement(server key, ephemeral priv), nonce 0^12, utf8(encoded params), no aad)) as the '
-                   'single ENC parameter, nothing cached on the request object.  Bounded (labelled bounded): that standard percent-decoding '
+                   'single ENC parameter, nothing cached on the request object; WARequest.urlencodeParams joins name=encoded(value) pairs with & in '
+                   'the original order, repeated names included (proved for lists of exactly three parameters: bounded in the number of '
+                   'parameters only).  Bounded (labelled bounded): that standard percent-decoding '
                    'returns the original value for str / bytes / int values and that the blob decrypts with the matching private key - '
                    'cross-checked natively against urllib.parse.unquote_to_bytes, hmac/hashlib and cryptography.',
     'native_checks': [{'name': 'c20_cross_check', 'role': 'stand-in', 'cmd': ['bounded/registration_check.py'],
